@@ -22,6 +22,7 @@ Act(e) ==
     [] e.ev = "Refill" -> Scribble(Reader)
     [] e.ev = "ScribbleResult" -> ScribbleResult(rmap[e.r])
     [] e.ev = "FrameDecode" -> FrameDecode
+    [] e.ev = "Forget" -> Forget(rmap[e.r])
 
 MakesResult(e) == e.ev \in {"Encode", "String", "Split", "Ucs2", "Decode", "FrameDecode"}
 
